@@ -2,6 +2,7 @@
 from __future__ import annotations
 
 import itertools
+import os
 
 import numpy as np
 
@@ -26,17 +27,77 @@ TIMEOUT = {"quick": 1500, "thorough": 5 * 3600}
 SIZES = [0, 1, 2, 3, 7]
 
 
+IDIOMS = ["reshape_to_sibling_shape", "expand_to_sibling_shape", "reshape_own_shape", "slice_full", "concat_head_minus1", "cos_cast", "binop_after_expand",
+          "gather_dim_arith"]
+
+
+def _plant_symbolic_idioms(g, kind=None):
+    """Shape idioms over inputs whose declared dims are symbolic: distinct symbol names with EQUAL sample sizes, repeated names,
+    so that bindings such as (N=0, M != K) or (M == K) are in the model's domain although the sample has M == K."""
+    import numpy as np
+    from vf.modelgen import F32, I64
+
+    if g.depth or any(v.kind == "input" and v.name.startswith("sx") for v in g.env):
+        return None
+    n, m = g.pick([1, 2, 3]), g.pick([1, 2, 3])
+    names = g.pick([("N", "M", "N", "K"), ("N", "M", "N", "K"), ("N", "M", "K", "M"), ("N", "M", "N", "M"), ("A", "B", "C", "D"), ("N", "M", "P", "M"), ("N", None, "N", None)])
+    dt = g.pick([F32, F32, I64])
+    x = g.add_input(dt, (n, m), style="smallint", dims=[names[0], names[1]])
+    y = g.add_input(dt, (n, m), style="smallint", dims=[names[2], names[3]])
+    g.features.add("planted:sym_idiom")
+    k = kind or g.pick(IDIOMS)
+    g.features.add("planted:sym_idiom:" + k)
+    c = lambda a: g.const_array(np.asarray(a, dtype=np.int64), how="node")  # noqa: E731
+    sy = g.emit("Shape", [y])
+    sx = g.emit("Shape", [x])
+    if not sy or not sx:
+        return None
+    if k == "reshape_to_sibling_shape":
+        r = g.emit("Reshape", [x, sy[0]])
+    elif k == "expand_to_sibling_shape":
+        r = g.emit("Expand", [x, sy[0]])
+    elif k == "reshape_own_shape":
+        r = g.emit("Reshape", [x, sx[0]])
+    elif k == "slice_full":
+        d0 = g.emit("Gather", [sy[0], c(0)], axis=0)
+        e = g.emit("Unsqueeze", [d0[0], c([0])]) if d0 else None
+        r = g.emit("Slice", [x, c([0]), e[0], c([0])]) if e else None
+    elif k == "concat_head_minus1":
+        h = g.emit("Slice", [sy[0], c([0]), c([1])])
+        t = g.emit("Concat", [h[0], c([-1])], axis=0) if h else None
+        r = g.emit("Reshape", [x, t[0]]) if t else None
+    elif k == "cos_cast":
+        z = g.emit("ConstantOfShape", [sy[0]])
+        zc = g.emit("Cast", [z[0]], to=modelgen.np2onnx(dt)) if z else None
+        r = g.emit("Add", [x, zc[0]]) if zc else None
+    elif k == "binop_after_expand":
+        e = g.emit("Expand", [x, sy[0]])
+        r = g.emit(g.pick(["Add", "Mul", "Sub"]), [e[0], y]) if e else None
+    else:
+        d = g.emit("Gather", [sx[0], c(g.pick([0, 1, -1]))], axis=0)
+        d2 = g.emit("Gather", [sy[0], c(g.pick([0, 1, -1]))], axis=0)
+        r = g.emit(g.pick(["Add", "Mul", "Sub", "Equal"]), [d[0], d2[0]]) if d and d2 else None
+    if r and r[0].dtype in (F32, I64) and r[0].rank >= 1 and g.chance(6):
+        g.emit("ReduceSum", [r[0], c([0])], keepdims=g.pick([0, 1]))
+        g.emit("Shape", [r[0]])
+    if kind and r:  # dedicated idiom shard: the idiom's result is always a graph output
+        g.__dict__.setdefault("forced", []).extend(r)
+    return r
+
+
 def _cfg():
     from vf.rulehosts import planters
 
     return {"symbolic": True, "overridable": False, "zero_dims": False, "value_info": True, "max_nodes": 9, "max_inputs": 2,
-            "extra_generators": planters(), "extra_weight": 3, "disable": ("g_sequence", "g_matmul", "g_loop", "g_function_call")}
+            "extra_generators": planters() + [_plant_symbolic_idioms] * 12, "extra_weight": 3, "disable": ("g_sequence", "g_matmul", "g_loop", "g_function_call")}
 
 
 def plan(tier, seed, budget):
     n = int((480 if tier == "quick" else 30000) * budget)
     shards = 16 if tier == "quick" else 64
-    return [{"n": max(1, n // shards)} for _ in range(shards)]
+    # general shards + dedicated shards, one per shape idiom (construction, not rejection: the idiom is planted first and is an output)
+    reps = 1 if tier == "quick" else 8
+    return [{"n": max(1, n // shards)} for _ in range(shards)] + [{"n": max(5, n // (shards * 3)), "idiom": k} for k in IDIOMS for _ in range(reps)]
 
 
 def bindings_for(gm, seed, cap=60):
@@ -46,8 +107,13 @@ def bindings_for(gm, seed, cap=60):
     if len(syms) <= 3:
         combos = [dict(zip(syms, c)) for c in itertools.product(SIZES, repeat=len(syms))]
     else:
+        # half uniform, half drawn from a two-value pool per binding (so that relations between dims the model itself needs, e.g.
+        # N*M == N*K for a Reshape, hold often enough, and equalities / zeros co-occur)
         rng = np.random.default_rng(seed)
-        combos = [dict(zip(syms, [SIZES[int(i)] for i in rng.integers(0, len(SIZES), size=len(syms))])) for _ in range(cap)]
+        combos = [dict(zip(syms, [SIZES[int(i)] for i in rng.integers(0, len(SIZES), size=len(syms))])) for _ in range(cap // 2)]
+        for _ in range(cap - cap // 2):
+            pool = [SIZES[int(i)] for i in rng.integers(0, len(SIZES), size=2)]
+            combos.append(dict(zip(syms, [pool[int(i)] for i in rng.integers(0, 2, size=len(syms))])))
     return syms, combos
 
 
@@ -69,7 +135,16 @@ def check(model, gm, o, combos, seed, fixed_feeds=None):
     from vf.props.C03 import diff_key
 
     dk = diff_key(model, new)
+    from vf import execs
+
+    t0 = execs._Server.timeouts
     for i, b in enumerate(combos):
+        if execs._Server.timeouts > t0:
+            # the runtime hangs on this model (a shape computed from data asks for a gigantic tensor): the remaining bindings are not informative
+            info["ort_timeout_abandoned"] = 1
+            if os.environ.get("VERIF_DEBUG_TIMEOUT"):
+                open(os.environ["VERIF_DEBUG_TIMEOUT"], "a").write(modelgen.model_text(model, 4000) + "\n" + repr(combos[i - 1]) + "\n\n")
+            break
         feeds = fixed_feeds[i] if fixed_feeds else gm.feeds_for_binding(b, seed + i)
         info["bindings"] += 1
         v, d = compare.decide(src, newsrc, [feeds])
@@ -128,14 +203,17 @@ def run_shard(spec):
         if changed:
             for i in range(info["interesting_compared"]):
                 col.nontrivial.add(f"{mh}:{i}")
-        for k in ("compared", "widened", "source_rejects", "split", "interesting_compared", "bindings"):
-            col.extra[k] = col.extra.get(k, 0) + info[k]
+        for k in ("compared", "widened", "source_rejects", "split", "interesting_compared", "bindings", "ort_timeout_abandoned"):
+            col.extra[k] = col.extra.get(k, 0) + info.get(k, 0)
         for bucket, detail, b, vfeeds in verdicts:
             col.violation(bucket, detail, {"model": optcommon.model_to_json(gm.model), "opts": o, "binding": [[list(k) if isinstance(k, tuple) else k, v] for k, v in b.items()],
                                            "feeds": [optcommon.feeds_to_json(vfeeds)],
                                            "declared": gm.declared, "input_specs": gm.input_specs, "seed": seed, "text": modelgen.model_text(gm.model, 3000)}, size=gm.n_nodes)
 
-    drive(st.tuples(optcommon.option_tuples(["optimize", "optimize", "optimize_ir", "fold_constants_si", "rewrite"]), modelgen.models(_cfg())), body, spec["n"], spec["seed"])
+    cfg = _cfg()
+    if spec.get("idiom"):
+        cfg.update(pre=lambda g: _plant_symbolic_idioms(g, spec["idiom"]), min_inputs=0, max_inputs=1, max_nodes=4, min_nodes=0)
+    drive(st.tuples(optcommon.option_tuples(["optimize", "optimize", "optimize_ir", "fold_constants_si", "rewrite"]), modelgen.models(cfg)), body, spec["n"], spec["seed"])
     return col.result()
 
 
